@@ -5,8 +5,16 @@ package stream
 
 import (
 	"context"
+	"math"
+	"time"
 
 	"github.com/apache/skywalking-banyandb/api/common"
+	commonv1 "github.com/apache/skywalking-banyandb/api/proto/banyandb/common/v1"
+	"github.com/apache/skywalking-banyandb/banyand/internal/storage"
+	"github.com/apache/skywalking-banyandb/banyand/protector"
+	"github.com/apache/skywalking-banyandb/pkg/logger"
+	"github.com/apache/skywalking-banyandb/pkg/query/model"
+	"github.com/apache/skywalking-banyandb/pkg/timestamp"
 	databasev1 "github.com/apache/skywalking-banyandb/api/proto/banyandb/database/v1"
 	modelv1 "github.com/apache/skywalking-banyandb/api/proto/banyandb/model/v1"
 	"github.com/apache/skywalking-banyandb/pkg/compress/zstd"
@@ -219,3 +227,124 @@ func (v *VerifIndex) Search(series []uint64, f index.Filter) ([]uint64, error) {
 func (v *VerifIndex) Close() error { return v.ei.Close() }
 
 var _ = inverted.ExternalSegmentTempDirName
+
+// VerifE2ERow is one element of the end-to-end run: entity value (series), timestamp, tags.
+type VerifE2ERow struct {
+	Entity string
+	Row    VerifRow
+	// Fields are the inverted-index fields of the element (built by the caller with VerifAppendField).
+	Fields func(sid common.SeriesID) []index.Field
+}
+
+// VerifE2E writes the batches (one mustAddElements call = one part each) into a real TSDB / tsTable / element index
+// in dir, then runs the production stream.Query with the given inverted and skipping filters over all series and
+// the time range, and returns the element ids it yields.
+func VerifE2E(dir, name string, schema *databasev1.Stream, batches [][]VerifE2ERow, start, end time.Time,
+	inverted, skipping index.Filter, projection []model.TagProjection,
+) (ids []uint64, err error) {
+	ir := storage.IntervalRule{Unit: storage.DAY, Num: 1}
+	opts := storage.TSDBOpts[*tsTable, option]{
+		ShardNum:        1,
+		Location:        dir,
+		TSTableCreator:  newTSTable,
+		SegmentInterval: ir,
+		TTL:             storage.IntervalRule{Unit: storage.DAY, Num: 3},
+		Option:          option{mergePolicy: newDefaultMergePolicyForTesting(), protector: protector.Nop{}},
+	}
+	db, err := storage.OpenTSDB(
+		common.SetPosition(context.Background(), func(p common.Position) common.Position {
+			p.Module = "stream"
+			p.Database = "verif"
+			return p
+		}), opts, nil, "g")
+	if err != nil {
+		return nil, err
+	}
+	defer db.Close()
+
+	entities := [][]*modelv1.TagValue{}
+	sidOf := map[string]common.SeriesID{}
+	var seriesDocs index.Documents
+	for _, b := range batches {
+		for _, r := range b {
+			if _, ok := sidOf[r.Entity]; ok {
+				continue
+			}
+			entity := []*modelv1.TagValue{{Value: &modelv1.TagValue_Str{Str: &modelv1.Str{Value: r.Entity}}}}
+			series := &pbv1.Series{Subject: name, EntityValues: entity}
+			if err = series.Marshal(); err != nil {
+				return nil, err
+			}
+			sidOf[r.Entity] = series.ID
+			entities = append(entities, entity)
+			seriesDocs = append(seriesDocs, index.Document{DocID: uint64(series.ID), EntityValues: series.Buffer})
+		}
+	}
+	if len(batches) == 0 || len(batches[0]) == 0 {
+		return nil, nil
+	}
+	seg, err := db.CreateSegmentIfNotExist(time.Unix(0, batches[0][0].Row.Ts))
+	if err != nil {
+		return nil, err
+	}
+	if err = seg.IndexDB().Insert(seriesDocs); err != nil {
+		return nil, err
+	}
+	tst, err := seg.CreateTSTableIfNotExist(common.ShardID(0))
+	if err != nil {
+		return nil, err
+	}
+	var docs index.Documents
+	for _, b := range batches {
+		rows := make([]VerifRow, 0, len(b))
+		for _, r := range b {
+			x := r.Row
+			x.SeriesID = uint64(sidOf[r.Entity])
+			rows = append(rows, x)
+			docs = append(docs, index.Document{DocID: x.ElementID, Timestamp: x.Ts, Fields: r.Fields(sidOf[r.Entity])})
+		}
+		es := verifElements(rows)
+		tst.mustAddElements(es)
+	}
+	if err = tst.Index().Write(docs); err != nil {
+		return nil, err
+	}
+	seg.DecRef()
+	time.Sleep(150 * time.Millisecond)
+
+	st := &stream{schema: schema}
+	st.tsdb.Store(db)
+	st.l = logger.GetLogger("verif-c08")
+	st.pm = protector.Nop{}
+	st.name, st.group = name, "g"
+	st.schema.Metadata = &commonv1.Metadata{Name: name, Group: "g"}
+	var is indexSchema
+	is.parse(st.schema)
+	st.indexSchema.Store(is)
+	tr := timestamp.NewInclusiveTimeRange(start, end)
+	sqo := model.StreamQueryOptions{
+		Name: name, TimeRange: &tr, Entities: entities, InvertedFilter: inverted, SkippingFilter: skipping,
+		TagProjection: projection, MaxElementSize: math.MaxInt32,
+	}
+	ctx := context.Background()
+	res, err := st.Query(ctx, sqo)
+	if err != nil {
+		return nil, err
+	}
+	if res == nil {
+		return nil, nil
+	}
+	defer res.Release()
+	// like BuildElementsFromStreamResult: an empty batch is not the end, only a nil result is
+	for n := 0; n < 100000; n++ {
+		r := res.Pull(ctx)
+		if r == nil {
+			break
+		}
+		if r.Error != nil {
+			return nil, r.Error
+		}
+		ids = append(ids, r.ElementIDs...)
+	}
+	return ids, nil
+}
